@@ -1726,6 +1726,41 @@ def popen_launch(case, rp):
     return dict(confirmed=False, detail='%d launch scenarios hold natively' % n)
 
 
+@builder('raptor/master.py:Master._submit_tasks')
+def master_submit(case, rp):
+    """the real Master._submit_tasks on bulks of requests of every mode: executable
+    ones reach _submit_executable_tasks, all others _submit_raptor_tasks, each once"""
+    import itertools
+    from radical.pilot.raptor.master import Master
+    import radical.pilot.task_description as tdm
+    modes = [tdm.TASK_EXECUTABLE, tdm.TASK_FUNC, tdm.TASK_METH, tdm.TASK_EVAL, tdm.TASK_EXEC, tdm.TASK_PROC, tdm.TASK_SHELL, 'absent']
+    n = 0
+    for combo in itertools.product(modes, repeat=2):
+        n += 1
+        m = object.__new__(Master)
+        m._log, m._prof = Stub(), Stub()
+        m._psbox = '/tmp/pilot.0000'
+        m._session = Stub()
+        m._session._get_task_sandbox = lambda t, p: 'file://localhost/tmp/pilot.0000/%s' % t['uid']
+        got = {'exec': [], 'raptor': []}
+        m._submit_executable_tasks = lambda ts: got['exec'].extend(t['uid'] for t in ts)
+        m._submit_raptor_tasks = lambda ts: got['raptor'].extend(t['uid'] for t in ts)
+        tasks = []
+        for i, mode in enumerate(combo):
+            d = {} if mode == 'absent' else {'mode': mode}
+            tasks.append({'uid': 'req.%d' % i, 'description': d})
+        try:
+            m._submit_tasks(tasks)
+        except Exception as e:
+            return dict(confirmed=True, detail='_submit_tasks raised %r' % e, input=dict(modes=combo))
+        want_exec = ['req.%d' % i for i, mode in enumerate(combo) if mode in (tdm.TASK_EXECUTABLE, 'absent')]
+        want_rap  = ['req.%d' % i for i, mode in enumerate(combo) if mode not in (tdm.TASK_EXECUTABLE, 'absent')]
+        if got['exec'] != want_exec or got['raptor'] != want_rap:
+            return dict(confirmed=True, input=dict(modes=combo), found_by='bounded native enumeration (%d bulks)' % n,
+                        detail='modes %s: executed by the pilot %s, sent to the workers %s; expected %s / %s' % (combo, got['exec'], got['raptor'], want_exec, want_rap))
+    return dict(confirmed=False, detail='%d bulks are routed by mode natively' % n)
+
+
 @builder('raptor/master.py:Master._result_cb')
 def master_result_cb(case, rp):
     from radical.pilot.raptor.master import Master
